@@ -224,3 +224,42 @@ def concrete_run(fn, env, targets, limit=200):
             return None
         prev, b = b, nb
     return None
+
+
+def concrete_walk(fn, env, stop, limit=400):
+    """follow the CFG from the entry with concrete branch outcomes, resolving phis along the path taken (env: {inst id: value}, extended in place with the
+    phi values). Stops at the first instruction for which stop(inst) is true and returns (inst, env); returns (None, env) at a return / undetermined branch."""
+    b, prev = fn.blocks[0], None
+    for _ in range(limit):
+        for i in b.insts:
+            if i.op == "phi" and prev is not None:
+                for v, frm in i.ops:
+                    if frm == prev.id:
+                        x = ceval(fn, v, env)
+                        env[i.id] = x if x is not None else ("sym", tuple(v[:2]))
+            if stop(i):
+                return i, env
+        t = b.term
+        if t.op in ("ret", "unreachable"):
+            return None, env
+        if t.op == "br" and t.ops:
+            c = ceval(fn, t.ops[0], {k_: v for k_, v in env.items() if not isinstance(v, tuple)})
+            if c is None:
+                return None, env
+            nb = b.succs[0 if c else 1]
+        elif t.op == "br":
+            nb = b.succs[0]
+        elif t.op == "switch":
+            c = ceval(fn, t.ops[0], {k_: v for k_, v in env.items() if not isinstance(v, tuple)})
+            if c is None:
+                return None, env
+            nb = None
+            for val, tgt in t.d.get("cases", []):
+                if val == c:
+                    nb = fn.blocks[tgt]
+            if nb is None:
+                nb = fn.blocks[t.d.get("default")]
+        else:
+            return None, env
+        prev, b = b, nb
+    return None, env
